@@ -64,6 +64,7 @@ func main() {
 		args = args[1:]
 	}
 	o.Seed, _ = strconv.Atoi(envOr("VERIF_SEED", "0"))
+	currentTier = o.Tier
 	if o.TimeoutS == 0 {
 		o.TimeoutS = 20
 		if o.Tier == "thorough" {
